@@ -37,7 +37,36 @@ fn level_of(prog: &Prog, v: usize) -> usize {
     if v < prog.nvars { prog.var_to_pos[v] } else { v }
 }
 
+/// MEU family with exact bound ties: decisions d1 (level 0) and d2 (level 2), a chance variable p
+/// between them and a reward variable u below; f = ite(d1, ite(p, T_a, T_b), T_c) (or mirrored)
+/// with T in { d2&u, !d2&u, u, d2|u, !d2|u }.  The bound of the d1 branch containing p is loose
+/// (the later decision d2 is maximised below the chance variable), the other is tight.
+fn gen_meu_family(rng: &mut Rng) -> String {
+    // pool: 0 d1, 1 p, 2 d2, 3 u, 4 d2&u, 5 !d2, 6 !d2&u, 7 d2|u, 8 !d2|u
+    let mut s = String::from("4 0 1 2 3 a 0 v 0 1 v 1 1 v 2 1 v 3 1 a 2 3 n 2 a 5 3 o 2 3 o 5 3");
+    let terms = [4usize, 6, 3, 7, 8];
+    let (ta, tb, tc) = (*rng.pick(&terms), *rng.pick(&terms), *rng.pick(&terms));
+    s.push_str(&format!(" i 1 {ta} {tb}")); // 9
+    let target = if rng.coin() {
+        s.push_str(&format!(" i 0 9 {tc}")); // 10
+        10
+    } else {
+        s.push_str(&format!(" i 0 {tc} 9")); // 10
+        10
+    };
+    let q = if rng.coin() { "0 2" } else { "2 0" };
+    s.push_str(&format!(" Q {target} 0 2 {q} R 8 8 4 4 8 8 4 4 E 8 0 8 0"));
+    let h = *rng.pick(&[2u64, 4, 4, 6]);
+    s.push_str(&format!(" {} 0 {h} 0 8 0 8 0", 8 - h));
+    let r = 1 + rng.below(4);
+    if rng.coin() { s.push_str(&format!(" 4 0 4 {r}")) } else { s.push_str(&format!(" 8 0 8 {r}")) }
+    s
+}
+
 pub fn gen(rng: &mut Rng, idx: usize, n: usize, thorough: bool) -> String {
+    if idx % 9 == 4 {
+        return gen_meu_family(rng);
+    }
     let o = GenOpts { max_vars: if thorough { 9 } else { 7 }, max_ops: if thorough { 40 } else { 24 }, new_vars: true, small_tables: false };
     let p = gen_prog(rng, idx, n, &o);
     let prog = parse(&p);
